@@ -4,7 +4,7 @@ import IofloModel.Drv.Proto
 driver for the clone model (engine `clones`, C12)
 
   `run <ticks> <nf> framer^nf`
-     framer := `F <name> <active|aux|moot> <first|~> <via|-> <n> frame^n`
+     framer := `F <house> <name> <active|aux|moot> <first|~> <via|-> <n> frame^n`
      frame  := `R <name> <over|~> <via|-> <n> item^n`
      item   := `x <orig> <clone|~> <via|->`                       aux [as clone] [via inode]
              | `a <ctx> act`       act := `rec <tag>` | `io <ref>` | `put <int> <ref>` | `inc <ref> <int>` | `done`
@@ -138,12 +138,13 @@ def frameP : P FrameSrc := fun ts => do
 def framerP : P FramerSrc := fun ts => do
   let (k, r) ← tok ts
   if k ≠ "F" then none
+  let (h, r) ← tok r
   let (n, r) ← tok r
   let (sc, r) ← schedP r
   let (first, r) ← optStr r
   let (v, r) ← str r
   let (frames, r) ← many frameP r
-  return (⟨n, sc, first, v, frames⟩, r)
+  return (⟨h, n, sc, first, v, frames⟩, r)
 
 /-! ### output -/
 
@@ -175,7 +176,7 @@ def itemPaths : List Item → Nat → List (Nat × Nat × String)
 
 def announce (s : St) (o : Fr) : List String :=
   let main := match o.main with | none => "~" | some (m, f) => nameOf s m ++ "/" ++ f
-  ["F " ++ o.name ++ " tag=" ++ o.tag ++ " o=" ++ b01 o.original ++ " i=" ++ b01 o.insular ++ " r=" ++ b01 o.razeable
+  ["F " ++ o.name ++ " house=" ++ o.house ++ " tag=" ++ o.tag ++ " o=" ++ b01 o.original ++ " i=" ++ b01 o.insular ++ " r=" ++ b01 o.razeable
      ++ " main=" ++ main ++ " inode=" ++ encS o.inode ++ " first=" ++ encS o.first]
   ++ o.frames.flatMap (fun f =>
       ("R " ++ o.name ++ " " ++ f.name ++ " over=" ++ (f.over.getD "~") ++ " out=" ++ ">".intercalate f.outline)
@@ -202,8 +203,8 @@ def snapshot (hosts : List Nat) (s : St) : St :=
       :: o.frames.filterMap (fun f =>
            if f.auxes.isEmpty then none
            else some ("X " ++ o.name ++ " " ++ f.name ++ " " ++ ",".intercalate (f.auxes.map (nameOf s)))))
-  let names := "N " ++ ",".intercalate (sortStrings (s.names.map (·.1)))
-  { s with out := (lines1 ++ lines2 ++ [names]).reverse ++ s.out, announced := s.announced ++ fresh }
+  let names := s.houses.map (fun h => "N " ++ h ++ " " ++ ",".intercalate (sortStrings ((s.regOf h).map (·.1))))
+  { s with out := (lines1 ++ lines2 ++ names).reverse ++ s.out, announced := s.announced ++ fresh }
 
 def errName : Err → String
   | .parse => "parse" | .resolve => "resolve" | .clone => "CloneError" | .typeError => "TypeError"
